@@ -228,11 +228,13 @@ def run(tier, replay=None):
         # programs with a merge over an unforked producer (C02 finding): the run fails in the
         # merge itself, whatever was injected
         um = ":unforked-merge" if sem[prog].get("weak") and not b["what"].startswith("unforked-merge") else ""
-        if "stuck-running" in b["what"] and s.get("maxjobs"):
-            # a cluster-mode run that came to rest without failing: the failure of a vanished job
-            # is found by operations that run beside the loop (the queue query is a process);
-            # under load the driver has been seen to judge the run at rest too early.  Reported
-            # only if the same schedule comes to rest again, three times out of three, alone
+        if "stuck-running" in b["what"]:
+            # a run that came to rest without failing or completing: in cluster mode the failure
+            # of a vanished job is found by operations that run beside the loop (the queue query is
+            # a process), and after an in-process restart work of the runtime goes on in goroutines;
+            # under heavy machine load the driver has been seen to judge such a run at rest too
+            # early (three runs of one thorough tier, none of which came to rest when repeated).
+            # Reported only if the same schedule comes to rest again, three times out of three, alone
             again = psrun.run_specs([dict(s, name=s["name"] + "#again%d" % k_, sched={"kind": "script", "script": r["script"]})
                                      for k_ in range(3)], nproc=3)
             if not all(a_["states"] == r["states"] for a_ in again):
